@@ -185,3 +185,197 @@ def stage_fp_round(pid, seed, tier, workdir):
     res["notes"] = {"worst_error_in_units_of_eps_times_S": worst, "threshold": 2 ** 20, "variants": variants}
     res["samples"] = [{"op": cases[0].lines[1][:200], "pair_model": pl.get(f"{cases[0].cid}.2", "")[:200]}]
     return res
+
+
+# ---------------------------------------------------------------------------
+# C17: Gauss-Legendre quadrature (double) against the analytic form (pair world) + interval coverage
+# ---------------------------------------------------------------------------
+def gen_C17(seed, tier):
+    import props
+    from caselib import Case
+    rng = random.Random(seed + 17)
+    cases = []
+    for r in range(10 if tier == 'quick' else 60):
+        c = Case(f"C17_{r}")
+        n = rng.randint(3, 7)
+        pts = props.dyadic_grid(rng, n)
+        c.grid_new(0, pts)
+        oa, ob = rng.randint(0, 3), rng.randint(0, 3)
+        wins = {}
+        for (d, o) in ((1, oa), (2, ob)):
+            w = rng.choice(props.windows(n))
+            wins[d] = w
+            c.sup_new(1000 + d, 0, w[0], w[1])
+            c.spl_new(d, o, 1000 + d, [[props.dyadic_coef(rng) for _ in range(o + 1)] for _ in range(props.nint(w))])
+        c.meta['pts'] = pts
+        c.meta['wins'] = wins
+        for deg in range(0, 4):
+            w = [props.dyadic_coef(rng) for _ in range(deg + 1)]
+            if w[-1] == 0:
+                w[-1] = Fr(1)
+            need = (oa + ob + deg + 2) // 2          # smallest n with 2n-1 >= oa+ob+deg
+            for nq in sorted({max(1, need - 1), need, need + 2}):
+                c.quad(nq, w, 1, 2)
+        cases.append(c)
+    return cases
+
+
+def stage_fp_quad(pid, seed, tier, workdir):
+    cases = gen_C17(seed, tier)
+    os.makedirs(workdir, exist_ok=True)
+    casefile = os.path.join(workdir, "quad_cases.txt")
+    with open(casefile, "w") as f:
+        f.write("".join(c.text() for c in cases))
+    res = {"diffs": [], "infra": [], "evaluations": 0, "samples": [], "nontrivial": [], "notes": {}}
+    ok, drv, log = pipeline.build_model()
+    if not ok:
+        res["infra"].append(("model does not build", log[-3000:]))
+        return res
+    rc, out, _ = pipeline.sh([drv, "--pair", casefile])
+    pl = dict(ln.split(" ", 1) for ln in out.splitlines() if " " in ln)
+    worst = Fr(0)
+    exact_side = below_side = 0
+    for v in (["fp_double"] if tier == 'quick' else ["fp_double", "fp_ldouble", "fp_double_O2"]):
+        ok, binp, log = pipeline.build_harness(cases, os.path.join(workdir, "quad"), v)
+        if not ok:
+            res["infra"].append((f"harness[{v}] does not build against {REPO}", log[-6000:]))
+            continue
+        hl, crashes = pipeline.run_harness(binp)
+        eps = EPS["ldouble" if "ldouble" in v else "double"]
+        for c in cases:
+            pts, wins = c.meta['pts'], c.meta['wins']
+            lo, hi = max(wins[1][0], wins[2][0]), min(wins[1][1], wins[2][1])
+            common = list(range(lo, hi - 1)) if hi - lo >= 2 else []
+            for idx, (nq, w, a, b) in c.meta.get('quad', {}).items():
+                k = f"{c.cid}.{idx}"
+                text = f"integrate<{nq}> weight={[str(x) for x in w]} orders={c.order(a)},{c.order(b)} windows={wins[1]},{wins[2]}"
+                res["evaluations"] += 1
+                res["nontrivial"].append(v + " " + text + " " + c.cid)
+                toks = (hl.get(k) or "").split()
+                hist = c.lines[:idx] + [f"# quadrature points: {nq}"]
+                def bad(msg, oracle="fails"):
+                    res["diffs"].append({"variant": v, "case": c.cid, "line": idx, "op": c.lines[idx - 1] + f"  [integrate<{nq}>]",
+                                         "model": pl.get(k), "impl": hl.get(k), "history": hist, "oracle": oracle, "explanation": msg})
+                if len(toks) < 4 or toks[0] != "OK" or "ABSC" not in toks:
+                    bad("unexpected output shape")
+                    continue
+                val = hex_to_fraction(toks[1])
+                ai = toks.index("ABSC")
+                xs = [hex_to_fraction(t) for t in toks[ai + 2:]]
+                # coverage: exactly nq abscissae strictly inside each common interval, none elsewhere
+                cnt = {kk: 0 for kk in common}
+                stray = 0
+                for x in xs:
+                    kk = next((kk for kk in common if pts[kk] < x < pts[kk + 1]), None)
+                    if kk is None:
+                        stray += 1
+                    else:
+                        cnt[kk] += 1
+                if stray or any(cn != nq for cn in cnt.values()):
+                    bad(f"the integrand was evaluated at {len(xs)} abscissae, {stray} outside the common intervals {common}; per interval {cnt} (expected {nq} each)")
+                    continue
+                exact = (2 * nq - 1 >= c.order(a) + c.order(b) + len(w) - 1)
+                pv = pl.get(k, "")
+                if exact and pv.startswith("OK "):
+                    vv, mm = (Fr(x) for x in pv.split()[1].split("~"))
+                    exact_side += 1
+                    err = abs(val - vv)
+                    if mm == 0:
+                        if err != 0:
+                            bad("non-zero result where the exact integral is 0 with zero magnitude")
+                        continue
+                    ratio = err / (eps * mm)
+                    worst = max(worst, ratio)
+                    if ratio > 2 ** 20:
+                        bad(f"|numerical - analytic| = {float(err):.3e} exceeds 2^20 eps S although 2n-1 >= order1+order2+d (ratio {float(ratio):.3e})")
+                else:
+                    below_side += 1
+    res["notes"] = {"worst_error_in_units_of_eps_times_S": float(worst), "cases_with_exactness_bound_met": exact_side,
+                    "cases_below_the_bound_checked_for_coverage_only": below_side}
+    res["samples"] = [{"case": cases[0].cid, "ops": cases[0].lines[:6]}]
+    return res
+
+
+# ---------------------------------------------------------------------------
+# C20: the shipped example solvers under debug-STL + ASan/UBSan
+# ---------------------------------------------------------------------------
+def build_examples():
+    import hashlib
+    import concurrent.futures
+    flags = ("-std=c++17 -O1 -w -D_GLIBCXX_DEBUG -fsanitize=address,undefined -fno-sanitize-recover=all "
+             "-DBSPLINE_INTERPOLATION_USE_EIGEN -DOKRUZ_BSPLINEBASIS_VERIF")
+    srcs = [os.path.join(REPO, "examples", f + ".cpp") for f in ("diffusion", "spline-potential", "harmonic-oscillator", "hydrogen")]
+    srcs.append(os.path.join(VERIF, "cpp", "examples_check.cpp"))
+    key = hashlib.sha256((pipeline.file_hash(pipeline.tree_files(os.path.join(REPO, "include")) +
+                                             pipeline.tree_files(os.path.join(REPO, "examples")) + [srcs[-1]]) + flags).encode()).hexdigest()[:20]
+    d = os.path.join(BUILD, "examples", key)
+    binp = os.path.join(d, "examples_check")
+    if os.path.exists(binp):
+        return True, binp, "cached"
+    os.makedirs(d, exist_ok=True)
+
+    def comp(src):
+        obj = os.path.join(d, os.path.basename(src)[:-4] + ".o")
+        return pipeline.sh(f"timeout 1500 g++ {flags} -I{REPO}/include -I{REPO}/examples -c {src} -o {obj}", timeout=1560) + (obj,)
+
+    objs, logs, good = [], [], True
+    with concurrent.futures.ThreadPoolExecutor(max_workers=8) as ex:
+        for rc, out, dt, obj in ex.map(comp, srcs):
+            objs.append(obj)
+            if rc != 0:
+                good = False
+                logs.append(out[-4000:])
+    if not good:
+        return False, None, "\n".join(logs)
+    rc, out, _ = pipeline.sh(f"g++ -fsanitize=address,undefined {' '.join(objs)} -o {binp}")
+    for o in objs:
+        try:
+            os.remove(o)
+        except OSError:
+            pass
+    return rc == 0, (binp if rc == 0 else None), out
+
+
+def stage_examples(pid, seed, tier, workdir):
+    import subprocess
+    res = {"diffs": [], "infra": [], "evaluations": 0, "samples": [], "nontrivial": [], "notes": {}}
+    ok, binp, log = build_examples()
+    if not ok:
+        res["infra"].append((f"the example solvers do not build against {REPO}", log[-6000:]))
+        return res
+    skip = []
+    checks = {}
+    env = dict(os.environ, ASAN_OPTIONS="detect_leaks=0", UBSAN_OPTIONS="print_stacktrace=1")
+    for _ in range(40):
+        p = subprocess.run([binp, str(seed % (2 ** 32)), tier] + skip, stdout=subprocess.PIPE, stderr=subprocess.PIPE, env=env, timeout=3000)
+        out = p.stdout.decode(errors="replace")
+        cur = None
+        done = False
+        for ln in out.splitlines():
+            if ln.startswith("BEGIN "):
+                cur = ln[6:].strip()
+            elif ln.startswith("EX "):
+                _, cid, chk, verdict, *det = ln.split(" ", 4)
+                checks[(cid, chk, len(checks))] = (verdict, det[0] if det else "")
+            elif ln == "DONE":
+                done = True
+        if done and p.returncode == 0:
+            break
+        err = p.stderr.decode(errors="replace")
+        res["diffs"].append({"variant": "debugstl+asan", "case": cur, "line": 0, "op": f"example case {cur} (seed {seed}, tier {tier})",
+                             "model": "well-defined execution (Proofs_Examples: container accesses in range)",
+                             "impl": f"CRASH rc={p.returncode}", "stderr": err[-3000:], "history": [f"examples_check {seed} {tier}  # case {cur}"],
+                             "oracle": "fails", "explanation": "the example solver aborted (libstdc++ debug mode / sanitizer / Eigen assertion): undefined behaviour on an admissible input"})
+        if cur is None:
+            break
+        skip.append(cur)
+    for (cid, chk, _), (verdict, det) in checks.items():
+        res["evaluations"] += 1
+        res["nontrivial"].append(f"{cid} {chk}")
+        if verdict != "OK":
+            res["diffs"].append({"variant": "debugstl+asan", "case": cid, "line": 0, "op": f"example case {cid}: {chk}", "model": "property holds",
+                                 "impl": f"FAIL {det}", "history": [f"examples_check {seed} {tier}  # case {cid}"], "oracle": "fails",
+                                 "explanation": f"{chk}: {det}"})
+    res["samples"] = [{"case": k[0], "check": k[1], "result": v[0], "details": v[1]} for k, v in list(checks.items())[:4]]
+    res["notes"] = {"cases_crashed": skip, "checks": len(checks)}
+    return res
